@@ -947,6 +947,195 @@ func sortedKeys[V any](m map[data_model.TagUnion]V) []data_model.TagUnion {
 	return keys
 }
 
+// ---------- several rows of one second: row identity on the aggregator ----------
+
+func stagsText(a []string) string {
+	var p []string
+	for i, x := range a {
+		if x != "" {
+			p = append(p, fmt.Sprintf("%d:%q", i, x))
+		}
+	}
+	return "{" + strings.Join(p, ",") + "}"
+}
+
+// bytes with runs of zeros folded: -n stands for n zero bytes
+func foldZeros(bs []byte) string {
+	var p []string
+	for i := 0; i < len(bs); {
+		if bs[i] != 0 {
+			p = append(p, fmt.Sprint(bs[i]))
+			i++
+			continue
+		}
+		j := i
+		for j < len(bs) && bs[j] == 0 {
+			j++
+		}
+		p = append(p, fmt.Sprintf("(-%d)", j-i))
+		i = j
+	}
+	return "[" + strings.Join(p, ";") + "]"
+}
+
+func sparseBytes(a []string) string {
+	var p []string
+	for i, x := range a {
+		if x != "" {
+			p = append(p, fmt.Sprintf("(%d,%s)", i, vu.Bytes([]byte(x))))
+		}
+	}
+	return "[" + strings.Join(p, ";") + "]"
+}
+
+// keys of one second that differ as little as possible: same metric and int tags with string tags that collide
+// under concatenation, the same string in neighbouring positions, an int tag against the same text as a string
+// tag, shifted int tags, empty against absent, and the same key in two seconds
+func genBucketKeys(r *vu.Rng, bt uint32) []data_model.Key {
+	base := data_model.Key{Timestamp: bt, Metric: int32(1 + r.Intn(1000))}
+	if r.Bool() {
+		base.Tags[0] = int32(1 + r.Intn(3))
+	}
+	if r.Chance(30) {
+		base.Tags[1+r.Intn(5)] = int32(r.U32())
+	}
+	i := 1 + r.Intn(10)
+	if r.Chance(10) {
+		i = 30 + r.Intn(14)
+	}
+	mk := func(st map[int]string, tg map[int]int32) data_model.Key {
+		k := base
+		for j, x := range st {
+			k.STags[j] = x
+		}
+		for j, x := range tg {
+			k.Tags[j] = x
+		}
+		return k
+	}
+	words := []string{"abc", "eu", "checkout", "10", "x-y", "a"}
+	w := words[r.Intn(len(words))]
+	var fam []data_model.Key
+	switch r.Intn(6) {
+	case 0: // one text split differently between neighbouring string tags
+		if len(w) < 2 {
+			w = "abc"
+		}
+		c := 1 + r.Intn(len(w)-1)
+		fam = []data_model.Key{mk(map[int]string{i: w[:c], i + 1: w[c:]}, nil), mk(map[int]string{i: w}, nil), mk(map[int]string{i + 1: w}, nil),
+			mk(map[int]string{i: w[:1], i + 1: w[1:]}, nil), mk(map[int]string{i: w[:1], i + 1: w[1:c], i + 2: w[c:]}, nil), mk(map[int]string{i: w[:c], i + 2: w[c:]}, nil)}
+	case 1: // the same value in neighbouring positions, a later string tag present
+		fam = []data_model.Key{mk(map[int]string{i: w, i + 2: "x"}, nil), mk(map[int]string{i + 1: w, i + 2: "x"}, nil), mk(map[int]string{i: w, i + 1: w, i + 2: "x"}, nil),
+			mk(map[int]string{i + 2: "x"}, nil), mk(map[int]string{i: w}, nil), mk(map[int]string{i: w, i + 3: "x"}, nil)}
+	case 2: // an int tag against a string tag, strings that look like the bytes of a tag or a count
+		fam = []data_model.Key{mk(map[int]string{i: "5"}, nil), mk(nil, map[int]int32{i: 5}), mk(nil, map[int]int32{i: 0x35}), mk(map[int]string{0: "\x01"}, nil),
+			mk(nil, nil), mk(map[int]string{i: "5", i + 1: "5"}, nil), mk(nil, map[int]int32{i: 5, i + 1: 5})}
+	case 3: // shifted int tags, trailing zeros
+		fam = []data_model.Key{mk(nil, map[int]int32{i: 7}), mk(nil, map[int]int32{i + 1: 7}), mk(nil, map[int]int32{i: 7, i + 1: 7}), mk(nil, map[int]int32{i: 7 << 8}),
+			mk(nil, map[int]int32{i: 7, i + 2: -1}), mk(nil, nil)}
+	case 4: // the same key in two seconds, first and last slots
+		k2 := mk(map[int]string{i: w}, nil)
+		k2.Timestamp = bt - 1
+		k3 := mk(nil, nil)
+		k3.Timestamp = bt - 1
+		fam = []data_model.Key{mk(map[int]string{i: w}, nil), k2, mk(nil, nil), k3, mk(map[int]string{0: w}, nil), mk(map[int]string{format.MaxTags - 1: w}, nil)}
+	default: // prefixes and repeated text
+		fam = []data_model.Key{mk(map[int]string{i: w}, nil), mk(map[int]string{i: w + w}, nil), mk(map[int]string{i: w, i + 1: w}, nil), mk(map[int]string{i: w + "a"}, nil),
+			mk(map[int]string{i: w, i + 1: "a"}, nil), mk(map[int]string{i: w[:1]}, nil)}
+	}
+	// 2..6 distinct keys in a seeded order
+	var keys []data_model.Key
+	n := 2 + r.Intn(5)
+	for len(fam) > 0 && len(keys) < n {
+		j := r.Intn(len(fam))
+		k := fam[j]
+		fam = append(fam[:j], fam[j+1:]...)
+		dup := false
+		for _, x := range keys {
+			dup = dup || x == k
+		}
+		if !dup {
+			keys = append(keys, k)
+		}
+	}
+	return keys
+}
+
+func runBucket(o *vu.Out, r *vu.Rng) {
+	bt := 1700000000 + uint32(r.Intn(1000000))
+	keys := genBucketKeys(r, bt)
+	sf := sfPool[r.Intn(len(sfPool))]
+	ah := data_model.TagUnion{I: 77}
+	var agg data_model.MultiItemMap
+	rng := rand.New(r.U64())
+	var rows []*grow
+	var got []*data_model.MultiItem
+	var rowT, bytesT, firstT, txt []string
+	problem := ""
+	for i, k := range keys {
+		a, b := gop{kind: "value", v: float64(i+1) * 1.5, c: 1}, gop{kind: "value", v: float64(i+1) * 2, c: float64(i + 1)}
+		g := &grow{key: k, bt: bt, sf: sf, ah: ah, tail: build(r.U64(), []gstep{{op: &a}, {op: &b}}, false), top: map[data_model.TagUnion]*gvalue{}}
+		rows = append(rows, g)
+		// the aggregator's path for one row of a received bucket (handleSendSourceBucket)
+		var item tlstatshouse.MultiItemBytes
+		if _, err := item.ReadTL1(assemble(itemOf(g), bt).wire); err != nil {
+			problem = err.Error()
+			break
+		}
+		kk, _ := data_model.KeyFromStatshouseMultiItem(&item, bt)
+		for j, str := range item.Skeys {
+			if j >= format.MaxTags {
+				break
+			}
+			kk.STags[j] = string(str)
+		}
+		var stackBuf [1024]byte
+		keyBytes, _ := kk.XXHash(stackBuf[:0])
+		bytesT = append(bytesT, foldZeros(keyBytes))
+		mi, _ := agg.GetOrCreateMultiItem(&kk, nil, keyBytes)
+		if e := mi.MergeWithTLMultiItem(rng, data_model.AggregatorStringTopCapacity, &item, ah); e != 0 {
+			problem = fmt.Sprintf("ingestion error %d", e)
+		}
+		got = append(got, mi)
+		first := i
+		for j := 0; j < i; j++ {
+			if got[j] == mi {
+				first = j
+				break
+			}
+		}
+		firstT = append(firstT, fmt.Sprint(first))
+		rowT = append(rowT, fmt.Sprintf("BK %d %s %s %s", k.Timestamp, vu.Z(int64(k.Metric)), sparseI(k.Tags[:]), sparseBytes(k.STags[:])))
+		txt = append(txt, fmt.Sprintf("ts=%d tags=%s stags=%s", k.Timestamp, sparseI(k.Tags[:]), stagsText(k.STags[:])))
+	}
+	input := fmt.Sprintf("bucket bt=%d metric=%d sf=%g rows=[%s]", bt, keys[0].Metric, sf, strings.Join(txt, " ; "))
+	if problem != "" {
+		line := o.Case(input, "CSkip", false, "bucket/problem")
+		o.Fail("wire_readable", line, input+" | "+problem)
+		return
+	}
+	term := fmt.Sprintf("CBucket [%s] [%s] [%s]", strings.Join(rowT, ";"), strings.Join(bytesT, ";"), strings.Join(firstT, ";"))
+	line := o.Case(input, term, true, "bucket", fmt.Sprintf("bucket/%d-rows", len(keys)))
+	// oracle: every sent row arrives under exactly its own key with its own aggregates
+	if len(agg.MultiItems) != len(rows) {
+		o.Fail("rows_keep_their_identity", line, input+fmt.Sprintf(" | %d rows sent, the aggregator holds %d", len(rows), len(agg.MultiItems)))
+	}
+	for i, g := range rows {
+		if firstT[i] != fmt.Sprint(i) {
+			o.Fail("rows_keep_their_identity", line, input+fmt.Sprintf(" | row %d was merged into the item of row %s", i, firstT[i]))
+			continue
+		}
+		if got[i].Key != g.key {
+			o.Fail("rows_keep_their_identity", line, input+fmt.Sprintf(" | row %d is filed under another key: stags %s", i, stagsText(got[i].Key.STags[:])))
+			continue
+		}
+		d, s := &got[i].Tail.Value, &g.tail.mv.Value
+		if d.Count() != s.Count()*sf || d.ValueSum != s.ValueSum*sf || d.ValueMin != s.ValueMin || d.ValueMax != s.ValueMax {
+			o.Fail("rows_keep_their_identity", line, input+fmt.Sprintf(" | row %d: count %v sum %v (sf %v) arrived as count %v sum %v", i, s.Count(), s.ValueSum, sf, d.Count(), d.ValueSum))
+		}
+	}
+}
+
 // ---------- one row ----------
 
 func rowText(g *grow) string {
@@ -1190,6 +1379,11 @@ func main() {
 	o := vu.NewOut(*out)
 	defer o.Close()
 	replayFindings(o)
+	// the guard of the key-identity theorem: a string tag with a zero byte never reaches the per-second map
+	// (validateStringTag in handleSendSourceBucket drops the row)
+	if format.ValidStringValueBytes([]byte("a\x00b")) || format.ValidStringValueBytes([]byte{0}) {
+		o.Fail("nul_string_tags_are_rejected", 0, "format.ValidStringValueBytes accepts a string with a zero byte")
+	}
 	var batch []*grow
 	for i := 0; i < *n; i++ {
 		boundary := i%40 == 7
@@ -1209,6 +1403,9 @@ func main() {
 		runRow(o, g, r.U64(), boundary)
 		if !boundary && i%10 == 3 {
 			batch = append(batch, genRow(r))
+		}
+		if i%10 == 5 {
+			runBucket(o, r)
 		}
 		if len(batch) == 20 || (i == *n-1 && len(batch) > 0) {
 			checkSampleBucket(o, r, batch)
